@@ -100,8 +100,48 @@ func (r *Run) RunQ() bool {
 			r.Inconclusive("harness-error: " + msg)
 			return false
 		}
+		if !panicConcerns(r.Prop, r.Sim.PanicStack) {
+			// the library panicked, but not in the code this property is anchored
+			// in: the run cannot be judged for this property (the checks of the
+			// properties anchored there report it)
+			r.Inconclusive("library-panic-elsewhere: " + msg)
+			return false
+		}
 		r.Fail("panic:"+panicClass(msg), "goroutine %s panicked: %s\n%s", r.Sim.PanicG, msg, trimStack(r.Sim.PanicStack))
 		return false
+	}
+	return false
+}
+
+// anchorFiles lists, per property, the library files its mechanism lives in
+// (the "anchors.files" of properties.jsonl). A library panic is a violation of
+// a property when it happens in one of them.
+var anchorFiles = map[string][]string{
+	"C01": {"server.go", "json.go"},
+	"C03": {"server.go"},
+	"C04": {"client.go", "base.go", "json.go"},
+	"C05": {"client.go", "base.go", "opts.go"},
+	"C06": {"server.go", "opts.go"},
+	"C07": {"server.go"},
+	"C08": {"server.go", "channel/channel.go", "server/local.go", "json.go", "base.go"},
+	"C09": {"server.go", "client.go", "base.go", "opts.go"},
+	"C10": {"server.go", "client.go", "json.go", "channel/channel.go"},
+	"C11": {"channel/split.go", "channel/hdr.go", "channel/json.go", "channel/channel.go"},
+	"C12": {"channel/hdr.go", "channel/split.go", "channel/json.go", "server.go"},
+	"C18": {"jhttp/bridge.go", "client.go", "base.go", "server/local.go"},
+	"C19": {"jhttp/getter.go", "jhttp/channel.go", "jhttp/bridge.go"},
+	"C20": {"server/loop.go", "server.go"},
+}
+
+func panicConcerns(prop, stack string) bool {
+	files, ok := anchorFiles[prop]
+	if !ok {
+		return true
+	}
+	for _, f := range files {
+		if strings.Contains(stack, "/src/"+f+":") {
+			return true
+		}
 	}
 	return false
 }
